@@ -114,6 +114,23 @@ func init() {
 	register("C09", func(env *Env) error {
 		wrapCase = func(t string) string { return "(KScript " + t + ")" }
 		defer func() { wrapCase = nil }()
+		var ro optionsCase
+		if ok, _ := env.ReplayDesc(&ro); ok && ro.Options {
+			env.Header = hsHeader + "Corr.C09."
+			seq := make([]optCall, len(ro.Calls))
+			for i, x := range ro.Calls {
+				seq[i] = optCall{Enc: x.Enc, Arg: x.Arg}
+			}
+			c, err := runOptions(ro.Kind, ro.Role, seq)
+			if err != nil {
+				return err
+			}
+			env.Add(c.coq(), c)
+			return nil
+		}
+		if env.Replay == "" {
+			defer addOptionsCases(env)
+		}
 		var rp pipelinedCase
 		if ok, _ := env.ReplayDesc(&rp); ok && rp.Pipelined {
 			env.Header = hsHeader + "Corr.C09."
